@@ -115,7 +115,8 @@ theorem single_op_per_key_keeps_shape (db : TDB) (m : Spec) (ops : List Op)
 sequence and the map at the last save only): several operations per key before one save are merged
 correctly — every answer is the map's answer and the save brings the db to the encoding of the
 map after the operations — as long as, for a key that was stored at the last save, nothing follows
-a buffered Del and no Del follows a buffered Update/Replace; for a key that was not stored
+a buffered Del (Update/Replace … followed by Del is included since repo commit 24b2bb6); for a key
+that was not stored
 (Add→Update, Add→Del, Add→Del→Add, Replace→Replace→Del …) there is no restriction. -/
 theorem multi_op_refines_partial (db : TDB) (m : Spec) (ops : List Op)
     (hrep : Rep db m) (hns : ∀ op ∈ ops, NoSep op.pk) (hgood : GoodRun m (fun _ => .fresh) ops) :
@@ -286,7 +287,7 @@ example :
 
 /-- non-vacuity of `multi_op_refines_partial`: on the one-row table, a good run with several
 operations per key (Update→Replace on the stored key; Add→Update→Del→Add on a new key; a failing
-Del), whose answers are not all `ok`; the three refuting runs below are NOT good. -/
+Del), whose answers are not all `ok`; the two refuting runs below are NOT good. -/
 example :
     GoodRun m1 (fun _ => .fresh)
       [.update ⟨p0, v1, v0, [101]⟩, .replace ⟨p0, v1, v1, [102]⟩, .add ⟨[112, 49], v0, v1, [103]⟩,
@@ -296,8 +297,7 @@ example :
        .update ⟨[112, 49], v1, v1, [104]⟩, .del [112, 49], .add ⟨[112, 49], v0, v0, [105]⟩, .del [112, 50]]).2
       = [.ok, .ok, .ok, .ok, .ok, .ok, .notfound] ∧
     ¬ GoodRun m1 (fun _ => .fresh) [.del p0, .add r0] ∧
-    ¬ GoodRun m1 (fun _ => .fresh) [.del p0, .replace ⟨p0, v0, v1, [100]⟩] ∧
-    ¬ GoodRun m1 (fun _ => .fresh) [.update ⟨p0, v1, v0, [100]⟩, .del p0] := by
+    ¬ GoodRun m1 (fun _ => .fresh) [.del p0, .replace ⟨p0, v0, v1, [100]⟩] := by
   decide
 
 /-- REFUTED (S-C10a): `Del p0; Add p0` before a save — the map says the Add succeeds (the key is
@@ -327,20 +327,18 @@ theorem multi_op_refines_full_false_b : ¬ multi_op_refines_full := by
   revert this
   decide
 
-/-- REFUTED (S-C10c): `Update p0` (f1 changed) then `Del p0` before a save — the old f1 index entry
-stays in the db although the row is gone.  corpus/C10/s_c10c.ops. -/
-theorem multi_op_refines_full_false_c : ¬ multi_op_refines_full := by
-  intro h
-  obtain ⟨_, kvs, hk, hrep⟩ := h db1 m1 [.update ⟨p0, v1, v0, [100]⟩, .del p0] rep_db1
-    (by intro op hop; simp only [List.mem_cons, List.not_mem_nil, or_false] at hop
-        rcases hop with h | h <;> subst h <;> decide)
-  have h2 : saveKVs (run { db := db1 } [.update ⟨p0, v1, v0, [100]⟩, .del p0]).1 = some
-      [(dataKey p0, none), (indexKey nameF1 v1 p0, none), (indexKey nameF2 v0 p0, none)] := by decide
-  rw [h2] at hk
-  have hkvs := (Option.some.inj hk).symm
-  subst hkvs
-  have := (hrep p0 (by decide)).2 (nameF1, Row.f1) (by simp [indexes]) v0
-  revert this
+/-- REGRESSION WITNESS (S-C10c, fixed by repo commit 24b2bb6): `Update p0` (f1: v0 → v1) then the
+FORMER `Del` (`delOld`: the Del record carried the new data) saved deletions for the new value only
+and left the stored entry f1 = v0 behind; the `Del` as it is now deletes the stored entries, and
+such runs are covered by `multi_op_refines_partial`.  corpus/C10/s_c10c.ops replays it on the code. -/
+theorem old_del_leaves_stale_index :
+    saveKVs (delOld (update { db := db1 } p0 ⟨p0, v1, v0, [100]⟩).1 p0).1 =
+      some [(dataKey p0, none), (indexKey nameF1 v1 p0, none), (indexKey nameF2 v0 p0, none)] ∧
+    get (applyKVs db1 [(dataKey p0, none), (indexKey nameF1 v1 p0, none), (indexKey nameF2 v0 p0, none)])
+      (indexKey nameF1 v0 p0) = some (Val.pk p0) ∧
+    saveKVs (del (update { db := db1 } p0 ⟨p0, v1, v0, [100]⟩).1 p0).1 =
+      some [(dataKey p0, none), (indexKey nameF1 v0 p0, none), (indexKey nameF2 v0 p0, none)] ∧
+    GoodRun m1 (fun _ => .fresh) [.update ⟨p0, v1, v0, [100]⟩, .del p0] := by
   decide
 
 end C10
